@@ -1380,6 +1380,15 @@ func condLeaves(v ssa.Value) []ssa.Value {
 			walk(x.X, d+1)
 		case *ssa.Extract:
 			out = append(out, v)
+		case *ssa.Phi:
+			// a condition kept in a boolean local: its operands
+			if alts, _, ok := shortCircuitAlternatives(x); ok {
+				for _, a := range alts {
+					walk(a, d+1)
+				}
+				return
+			}
+			out = append(out, v)
 		default:
 			out = append(out, v)
 		}
